@@ -21,6 +21,11 @@ BoundFails(T) ==
    IN Flatten([e \in 1..Len(T.res) |->
         LET ev == T.res[e]
             fs == IF ev.out # "ret" THEN <<"C13.bound_not_computed:" \o ev.out>>
+                  ELSE IF ev.kp > 0 THEN      \* k-largest / k-smallest sums: the inherited trivial bound (minus infinity) or any admissible value
+                       (IF ev.ninf = 1 THEN <<>>
+                        ELSE IF ~ev.exact THEN <<"C13.bound_not_an_integer">>
+                        ELSE IF ev.v > Min({ Value(ev.o, ev.kp, [b \in 1..Len(s) |-> s[b] + c[b]]) : c \in Compositions(T.R, Len(s)) })
+                             THEN <<"C13." \o ev.o \o ".bound_exceeds_best_reachable_value">> ELSE <<>>)
                   ELSE IF ~ev.exact THEN <<"C13.bound_not_an_integer">>
                   ELSE (IF ev.v > BestReach(ev.o, s, T.R) THEN <<"C13." \o ev.o \o ".bound_exceeds_best_reachable_value">> ELSE <<>>)
                     \o (IF ev.v # ref(ev.o) THEN <<"C13." \o ev.o \o ".bound_depends_on_sorted_flag_or_order">> ELSE <<>>)
